@@ -147,8 +147,32 @@ def scoreOf (sc : Scorer) (v : Pairwise) (e : Pair × Rat) : Rat :=
   | .margins => e.2 - pget v (e.1.2, e.1.1)
   | .pairwiseOpposition => e.2
 
+/-- the regenerated value functions are the textbook ones (an edit of `pairwin_scorer.py` breaks these) -/
+theorem winning_votes_value_eq (count rev : Rat) :
+    Gen.PairwinScorer.winning_votes_value count rev = if rev < count then count else 0 := by
+  unfold Gen.PairwinScorer.winning_votes_value
+  simp
+
+theorem margins_value_eq (count rev : Rat) : Gen.PairwinScorer.margins_value count rev = count - rev := rfl
+
+theorem pairwise_opposition_value_eq (count rev : Rat) :
+    Gen.PairwinScorer.pairwise_opposition_value count rev = count := rfl
+
 theorem scorePairs_eq (sc : Scorer) (v : Pairwise) : scorePairs sc v = v.map (fun e => (e.1, scoreOf sc v e)) := by
-  cases sc <;> simp [scorePairs, scoreOf]
+  cases sc <;>
+    simp only [scorePairs, scoreOf, winning_votes_value_eq, margins_value_eq, pairwise_opposition_value_eq]
+
+/-- the scorers in closed form (for users of the model that do not go through `scoreOf`) -/
+theorem scorePairs_wv (v : Pairwise) :
+    scorePairs .winningVotes v = v.map (fun e => (e.1, if pget v (e.1.2, e.1.1) < e.2 then e.2 else 0)) :=
+  scorePairs_eq _ v
+
+theorem scorePairs_margins (v : Pairwise) :
+    scorePairs .margins v = v.map (fun e => (e.1, e.2 - pget v (e.1.2, e.1.1))) := scorePairs_eq _ v
+
+theorem scorePairs_pwo (v : Pairwise) : scorePairs .pairwiseOpposition v = v := by
+  rw [scorePairs_eq]
+  simp [scoreOf]
 
 /-- the scores of the pairs in which `c` is the lower candidate -/
 def defeatsOf (sc : Scorer) (v : Pairwise) (c : Cand) : List Rat :=
